@@ -50,3 +50,22 @@ Definition run_c12 (arg : sx) : sx :=
   let ops := sx_get_l (sx_nth arg 2) in
   let opss := map (ops_of_thread ops) (seq_from 0 nthreads) in
   SL [sx_bool (table_wf T); sx_bool (table_ror_all T); SL (run_ops T ops (t_init opss))].
+
+(* ---- incoming direction with failing deliveries (C12Segments.v) ----
+   arg: ((B badframe ...) B buf (B chunk ...)) -> ((((B frame ...) N raised) ...) B buf') *)
+From YV Require Import C05.C05Model C12.C12Segments.
+
+Fixpoint bytes_eqb (a b : list N) : bool :=
+  match a, b with
+  | [], [] => true
+  | x :: a', y :: b' => N.eqb x y && bytes_eqb a' b'
+  | _, _ => false
+  end.
+
+Definition run_c12seg (arg : sx) : sx :=
+  let bads := map sx_get_b (sx_get_l (sx_nth arg 0)) in
+  let bad := fun f => existsb (bytes_eqb f) bads in
+  let buf := sx_get_b (sx_nth arg 1) in
+  let chunks := map sx_get_b (sx_get_l (sx_nth arg 2)) in
+  let '(calls, b) := run_exc bad buf chunks in
+  SL [SL (map (fun c => SL [SL (map SB (fst c)); sx_bool (snd c)]) calls); SB b].
